@@ -1534,7 +1534,12 @@ class Engine:
                 name in self.repo.init_params(cls):
           return self.load_attr(args[0], name, e, st, func)
         if len(args) == 3:
-          return args[2]
+          stored = self.repo.stored_attrs()
+          if name not in stored and '*' not in stored:
+            return args[2]      # never assigned anywhere: the default
+          # the attribute may or may not exist (state left by earlier calls)
+          cur = self.load_attr(args[0], name, e, st, func)
+          return self.join_v(args[2], cur)
       self.dom.on_call('ext', d, full, kwargs, e, st)
       return self._wrap(self.dom.ext_call(d, full, kwargs, e, st, self))
     self.calls_unresolved.append((func, e))
